@@ -8,19 +8,19 @@ import (
 
 // Stats accumulates what a batch of runs covered.
 type Stats struct {
-	Runs       int            `json:"runs"`
-	Ops        int            `json:"ops"`
-	Steps      int            `json:"steps"`
-	Switches   int            `json:"switches"`
-	Probes     map[string]int `json:"probes"`
-	Faults     map[string]int `json:"fault_counts"`
-	Distinct   map[uint64]struct{} `json:"-"`
-	SchedSigs  map[uint64]struct{} `json:"-"`
-	ConfSigs   map[uint64]struct{} `json:"-"`
-	Samples    []any          `json:"samples"`
-	Inconclusive int          `json:"inconclusive"`
-	WithFaults int            `json:"runs_with_faults"`
-	FaultFree  int            `json:"runs_fault_free"`
+	Runs         int                 `json:"runs"`
+	Ops          int                 `json:"ops"`
+	Steps        int                 `json:"steps"`
+	Switches     int                 `json:"switches"`
+	Probes       map[string]int      `json:"probes"`
+	Faults       map[string]int      `json:"fault_counts"`
+	Distinct     map[uint64]struct{} `json:"-"`
+	SchedSigs    map[uint64]struct{} `json:"-"`
+	ConfSigs     map[uint64]struct{} `json:"-"`
+	Samples      []any               `json:"samples"`
+	Inconclusive int                 `json:"inconclusive"`
+	WithFaults   int                 `json:"runs_with_faults"`
+	FaultFree    int                 `json:"runs_fault_free"`
 }
 
 // NewStats returns empty statistics.
